@@ -202,6 +202,14 @@ def prop_case(draw, shard, tier, family="propagators"):
     dt = draw(st.sampled_from([0, 1, -1, 60 * US]) | gd.mixed_int(-span, span, 2))
     if kind.startswith("keplernum-"):
         dt = abs(dt) + 600 * US
+    if not kind.startswith("keplernum") and kind not in ("sun", "moon", "iter") and draw(st.integers(0, 7)) == 0:
+        # epoch and target on either side of a leap second (hours to days away from it): the offsets between the
+        # scales are not the same at the two dates
+        inside = [m for m in leaps if gd.LO_MJD + 12 < m < gd.HI_MJD - 12]
+        leap_us = (draw(st.sampled_from(inside)) - iers.BASE_MJD) * US_DAY
+        a = draw(gd.uniform_int(130 * US, 2 * US_DAY))
+        b = draw(gd.uniform_int(130 * US, 2 * US_DAY))
+        us, dt = (leap_us - a, a + b) if draw(st.booleans()) else (leap_us + b, -(a + b))
     if kind.startswith("keplernum") and not gd.leap_free(us - abs(dt) - 1800 * US, us + abs(dt) + 1800 * US, leaps):
         # the integrator walks epoch + k * step (at least 8 steps, also backward) in the epoch's own clock: a leap
         # second inside that walk is outside what the library handles (C03), whatever the label
